@@ -176,13 +176,27 @@ func verifC30InstallHook() {
 
 // verifC30Worker is a reusable goroutine: creating goroutines is expensive
 // under the race detector, and an execution needs 2-4 of them.
-type verifC30Worker struct{ jobs chan func() }
+type verifC30Worker struct {
+	jobs  chan func()
+	actor *verifC30Actor
+}
 
-var verifC30Pool []*verifC30Worker // used by the chooser goroutine only
+// used by the chooser goroutine only
+var (
+	verifC30Pool     []*verifC30Worker
+	verifC30TheSched *verifC30Sched
+)
+
+func verifC30GetSched() *verifC30Sched {
+	if verifC30TheSched == nil {
+		verifC30TheSched = &verifC30Sched{ev: make(chan verifC30Ev)}
+	}
+	return verifC30TheSched
+}
 
 func verifC30GetWorker(i int) *verifC30Worker {
 	for len(verifC30Pool) <= i {
-		w := &verifC30Worker{jobs: make(chan func())}
+		w := &verifC30Worker{jobs: make(chan func()), actor: &verifC30Actor{id: len(verifC30Pool), resume: make(chan struct{})}}
 		go func() {
 			for j := range w.jobs {
 				j()
@@ -213,7 +227,18 @@ type verifC30Config struct {
 	Reader string `json:"reader"`
 	DFS    bool   `json:"dfs"`
 	Walks  int    `json:"walks"`
-	vals   [][]string
+	// Split > 0: the enumeration of this configuration is divided into one
+	// work item per choice prefix of that length (so that shards share it).
+	Split int `json:"split,omitempty"`
+	vals  [][]string
+}
+
+func (c *verifC30Config) nActors() int {
+	n := len(c.Actors)
+	if c.Reader != "" {
+		n++
+	}
+	return n
 }
 
 // values returns the value written by each op (unique per actor and op).
@@ -252,7 +277,7 @@ func verifC30PreValue(k verifC30Key) string { return "pre:" + k.String() }
 // re-building until the random tower heights equal the wanted ones.
 func verifC30BuildBase(cfg *verifC30Config) (*verifC30Base, int) {
 	for try := 1; try <= 2000000; try++ {
-		arena := NewArena(make([]byte, 4096))
+		arena := NewArena(make([]byte, verifC30ArenaSize))
 		l := NewSkiplist(arena, bytes.Compare)
 		ok := true
 		for i, k := range cfg.Pre {
@@ -279,11 +304,21 @@ func verifC30BuildBase(cfg *verifC30Config) (*verifC30Base, int) {
 }
 
 // verifC30Clone copies a quiescent skiplist (its whole state lives in the
-// arena buffer, the arena size and the height).
-func verifC30Clone(src *Skiplist) *Skiplist {
+// arena buffer, the arena size and the height) into buf, which is reused
+// between executions because allocating is expensive under the race detector.
+// used is the number of bytes of buf the previous execution may have touched.
+func verifC30Clone(src *Skiplist, buf []byte, used uint64) *Skiplist {
 	n := src.arena.n.Load()
-	buf := make([]byte, len(src.arena.buf))
+	if len(buf) != len(src.arena.buf) {
+		panic("verifC30: buffer size mismatch")
+	}
 	copy(buf, src.arena.buf[:n])
+	if used > uint64(len(buf)) {
+		used = uint64(len(buf))
+	}
+	if used > n {
+		clear(buf[n:used])
+	}
 	a := &Arena{buf: buf}
 	a.n.Store(n)
 	ho := src.arena.getPointerOffset(unsafe.Pointer(src.head))
@@ -292,6 +327,13 @@ func verifC30Clone(src *Skiplist) *Skiplist {
 	s.height.Store(src.height.Load())
 	return s
 }
+
+var (
+	verifC30Buf     = make([]byte, verifC30ArenaSize)
+	verifC30BufUsed uint64
+)
+
+const verifC30ArenaSize = 4096
 
 // ---------------------------------------------------------------------------
 // one controlled execution
@@ -391,9 +433,10 @@ func verifC30OpValue(ai, oi int, k verifC30Key) string {
 // scheduler. choose(step, n) returns the index (into the id-ordered list of
 // parked actors) of the actor to release.
 func verifC30Execute(cfg *verifC30Config, bs *verifC30Base, choose func(step, n int) int) *verifC30Run {
-	l := verifC30Clone(bs.list)
+	l := verifC30Clone(bs.list, verifC30Buf, verifC30BufUsed)
+	defer func() { verifC30BufUsed = l.arena.n.Load() }()
 	run := &verifC30Run{cfg: cfg, list: l, added: map[verifC30Key]string{}, started: map[verifC30Key]bool{}}
-	sched := &verifC30Sched{ev: make(chan verifC30Ev)}
+	sched := verifC30GetSched()
 	nIns := len(cfg.Actors)
 	var actors []*verifC30Actor
 	run.Results = make([][]verifC30OpResult, nIns)
@@ -401,9 +444,10 @@ func verifC30Execute(cfg *verifC30Config, bs *verifC30Base, choose func(step, n 
 	vals := cfg.values()
 	for ai := range cfg.Actors {
 		run.Results[ai] = make([]verifC30OpResult, len(cfg.Actors[ai]))
-		a := &verifC30Actor{id: ai, resume: make(chan struct{}), atSite: "harness.start"}
+		a := verifC30GetWorker(ai).actor
+		a.atSite = "harness.start"
 		actors = append(actors, a)
-		ai, a := ai, a
+		ai := ai
 		verifC30GetWorker(ai).jobs <- func() {
 			<-a.resume
 			defer func() {
@@ -440,7 +484,8 @@ func verifC30Execute(cfg *verifC30Config, bs *verifC30Base, choose func(step, n 
 		}
 	}
 	if cfg.Reader != "" {
-		a := &verifC30Actor{id: nIns, resume: make(chan struct{}), atSite: "harness.start"}
+		a := verifC30GetWorker(nIns).actor
+		a.atSite = "harness.start"
 		actors = append(actors, a)
 		verifC30GetWorker(nIns).jobs <- func() {
 			<-a.resume
@@ -520,7 +565,7 @@ func verifC30Execute(cfg *verifC30Config, bs *verifC30Base, choose func(step, n 
 	for step := 0; len(enabled) > 0; step++ {
 		if step >= verifC30MaxSteps {
 			run.Livelock = true
-			verifC30Pool = nil // the remaining actors stay parked forever (leaked on purpose)
+			verifC30Pool, verifC30TheSched = nil, nil // the remaining actors stay parked forever (leaked on purpose)
 			break
 		}
 		idx := choose(step, len(enabled))
@@ -898,6 +943,12 @@ func verifC30DFSConfigs(thorough bool) []*verifC30Config {
 				if !thorough && p.name == "adjacent-rev" {
 					continue
 				}
+				if !thorough && h == [2]uint32{2, 2} && !((p.name == "equal" || p.name == "adjacent") && ps.name == "empty") {
+					continue
+				}
+				if !thorough && h != [2]uint32{1, 1} && h != [2]uint32{2, 2} && ps.name != "empty" && p.name != "split2" {
+					continue
+				}
 				if h[0] == 3 || h[1] == 3 {
 					// height-3 towers: only the patterns where both inserters share every splice
 					if p.name != "equal" && p.name != "adjacent" && p.name != "sameuser" {
@@ -914,6 +965,9 @@ func verifC30DFSConfigs(thorough bool) []*verifC30Config {
 					PreH:   append(append([]uint32(nil), ps.h...), p.extraH...),
 					Actors: [][]verifC30Op{verifC30One(p.k0, h[0]), verifC30One(p.k1, h[1])},
 				}
+				if h[0]+h[1] >= 5 {
+					c.Split = 3
+				}
 				add(c)
 			}
 		}
@@ -921,7 +975,7 @@ func verifC30DFSConfigs(thorough bool) []*verifC30Config {
 	if thorough {
 		// the (3,3) combinations for the two densest patterns on the empty list
 		for _, p := range pats[:2] {
-			add(&verifC30Config{Name: fmt.Sprintf("A/%s/pre=empty/h=3.3", p.name), Family: "A:2x1",
+			add(&verifC30Config{Name: fmt.Sprintf("A/%s/pre=empty/h=3.3", p.name), Family: "A:2x1", Split: 4,
 				Actors: [][]verifC30Op{verifC30One(p.k0, 3), verifC30One(p.k1, 3)}})
 		}
 	}
@@ -947,14 +1001,14 @@ func verifC30DFSConfigs(thorough bool) []*verifC30Config {
 		Actors: [][]verifC30Op{verifC30One(e1, 1), verifC30One(c1, 1)}, Reader: "b"})
 	if thorough {
 		for _, rd := range []string{"f", "b"} {
-			add(&verifC30Config{Name: "E/2ins/equal/" + rd, Family: "E:reader",
+			add(&verifC30Config{Name: "E/2ins/equal/" + rd, Family: "E:reader", Split: 2,
 				Actors: [][]verifC30Op{verifC30One(d1, 1), verifC30One(d1, 1)}, Reader: rd})
-			add(&verifC30Config{Name: "E/2ins/pre-a/" + rd, Family: "E:reader", Pre: []verifC30Key{a1}, PreH: []uint32{1},
+			add(&verifC30Config{Name: "E/2ins/pre-a/" + rd, Family: "E:reader", Split: 2, Pre: []verifC30Key{a1}, PreH: []uint32{1},
 				Actors: [][]verifC30Op{verifC30One(e1, 1), verifC30One(c1, 1)}, Reader: rd})
-			add(&verifC30Config{Name: "E/2ins/split/" + rd, Family: "E:reader", Pre: []verifC30Key{d1}, PreH: []uint32{2},
+			add(&verifC30Config{Name: "E/2ins/split/" + rd, Family: "E:reader", Split: 2, Pre: []verifC30Key{d1}, PreH: []uint32{2},
 				Actors: [][]verifC30Op{verifC30One(e1, 1), verifC30One(c1, 1)}, Reader: rd})
 		}
-		add(&verifC30Config{Name: "E/2ins/empty/bb", Family: "E:reader",
+		add(&verifC30Config{Name: "E/2ins/empty/bb", Family: "E:reader", Split: 2,
 			Actors: [][]verifC30Op{verifC30One(e1, 1), verifC30One(c1, 1)}, Reader: "bb"})
 	}
 	// Family C: two inserters, two keys each (cached splices with Inserter).
@@ -971,14 +1025,14 @@ func verifC30DFSConfigs(thorough bool) []*verifC30Config {
 	if thorough {
 		for _, p := range p2 {
 			for _, ins := range []bool{false, true} {
-				add(&verifC30Config{Name: fmt.Sprintf("C/%s/inserter=%v", p.name, ins), Family: "C:2x2", Inserter: ins,
+				add(&verifC30Config{Name: fmt.Sprintf("C/%s/inserter=%v", p.name, ins), Family: "C:2x2", Inserter: ins, Split: 2,
 					Actors: [][]verifC30Op{verifC30Ops(1, p.a0...), verifC30Ops(1, p.a1...)}})
 			}
 		}
-		add(&verifC30Config{Name: "C/interleaved/pre=d2/inserter=true", Family: "C:2x2", Inserter: true,
+		add(&verifC30Config{Name: "C/interleaved/pre=d2/inserter=true", Family: "C:2x2", Inserter: true, Split: 2,
 			Pre: []verifC30Key{d1}, PreH: []uint32{2},
 			Actors: [][]verifC30Op{verifC30Ops(1, c1, e1), verifC30Ops(1, b1, f1)}})
-		add(&verifC30Config{Name: "C/tall-first/inserter=true", Family: "C:2x2", Inserter: true,
+		add(&verifC30Config{Name: "C/tall-first/inserter=true", Family: "C:2x2", Inserter: true, Split: 3,
 			Actors: [][]verifC30Op{{{K: c1, H: 2}, {K: e1, H: 1}}, {{K: d1, H: 1}, {K: f1, H: 1}}}})
 	} else {
 		add(&verifC30Config{Name: "C/2+1/inserter=true", Family: "C:2+1", Inserter: true,
@@ -992,7 +1046,7 @@ func verifC30DFSConfigs(thorough bool) []*verifC30Config {
 			Actors: [][]verifC30Op{verifC30Ops(1, b1, d1, f1), verifC30Ops(1, c1)}})
 		add(&verifC30Config{Name: "D/3+1/dups/inserter=true", Family: "D:3+k", Inserter: true,
 			Actors: [][]verifC30Op{verifC30Ops(1, b1, d1, b1), verifC30Ops(1, d1)}})
-		add(&verifC30Config{Name: "D/3+2/inserter=true", Family: "D:3+k", Inserter: true,
+		add(&verifC30Config{Name: "D/3+2/inserter=true", Family: "D:3+k", Inserter: true, Split: 4,
 			Actors: [][]verifC30Op{verifC30Ops(1, b1, d1, f1), verifC30Ops(1, c1, e1)}})
 	}
 	// Family B: three inserters, one key each.
@@ -1008,18 +1062,15 @@ func verifC30DFSConfigs(thorough bool) []*verifC30Config {
 			{"sameuser", d3, d2, d1},
 		}
 		for _, p := range p3 {
-			add(&verifC30Config{Name: "B/" + p.name + "/pre=empty/h=1.1.1", Family: "B:3x1",
+			add(&verifC30Config{Name: "B/" + p.name + "/pre=empty/h=1.1.1", Family: "B:3x1", Split: 2,
 				Actors: [][]verifC30Op{verifC30One(p.k0, 1), verifC30One(p.k1, 1), verifC30One(p.k2, 1)}})
-			add(&verifC30Config{Name: "B/" + p.name + "/pre=a2/h=1.1.1", Family: "B:3x1", Pre: []verifC30Key{a1}, PreH: []uint32{2},
+			add(&verifC30Config{Name: "B/" + p.name + "/pre=a2/h=1.1.1", Family: "B:3x1", Split: 2, Pre: []verifC30Key{a1}, PreH: []uint32{2},
 				Actors: [][]verifC30Op{verifC30One(p.k0, 1), verifC30One(p.k1, 1), verifC30One(p.k2, 1)}})
 		}
-		add(&verifC30Config{Name: "B/all-adjacent/pre=empty/h=2.1.1", Family: "B:3x1",
+		add(&verifC30Config{Name: "B/all-adjacent/pre=empty/h=2.1.1", Family: "B:3x1", Split: 3,
 			Actors: [][]verifC30Op{verifC30One(c1, 2), verifC30One(d1, 1), verifC30One(e1, 1)}})
-		add(&verifC30Config{Name: "B/all-equal/pre=empty/h=1.2.1", Family: "B:3x1",
+		add(&verifC30Config{Name: "B/all-equal/pre=empty/h=1.2.1", Family: "B:3x1", Split: 3,
 			Actors: [][]verifC30Op{verifC30One(d1, 1), verifC30One(d1, 2), verifC30One(d1, 1)}})
-	} else {
-		add(&verifC30Config{Name: "B/all-equal/pre=empty/h=1.1.1", Family: "B:3x1",
-			Actors: [][]verifC30Op{verifC30One(d1, 1), verifC30One(d1, 1), verifC30One(d1, 1)}})
 	}
 	return out
 }
@@ -1173,18 +1224,22 @@ func verifC30HashChoices(ch []int) uint64 {
 	return h
 }
 
-// dfs enumerates every schedule of cfg (for its target height vector) by
-// re-execution. Returns (schedules, complete).
-func (x *verifC30Explorer) dfs(cfg *verifC30Config, bs *verifC30Base, maxSchedules int) (int, bool) {
+// dfs enumerates every schedule of cfg (for its target height vector) that
+// starts with the given choice prefix, by re-execution. Returns (schedules,
+// complete).
+func (x *verifC30Explorer) dfs(cfg *verifC30Config, bs *verifC30Base, maxSchedules int, prefix []int) (int, bool) {
 	type frame struct{ choice, n int }
 	var stack []frame
-	count, off, consecutiveOff := 0, 0, 0
+	for _, p := range prefix {
+		stack = append(stack, frame{p, -1})
+	}
+	count, consecutiveOff := 0, 0
 	distinctLogged := 0
 	for {
 		mismatch := false
 		run := verifC30Execute(cfg, bs, func(step, n int) int {
 			if step < len(stack) {
-				if stack[step].n != n {
+				if stack[step].n != n && stack[step].n != -1 {
 					mismatch = true // only meaningful for on-target executions
 				}
 				return stack[step].choice
@@ -1199,7 +1254,6 @@ func (x *verifC30Explorer) dfs(cfg *verifC30Config, bs *verifC30Base, maxSchedul
 			return count, false
 		}
 		if run.OffTarget {
-			off++
 			consecutiveOff++
 			x.r.Count("executions_off_target_heights", 1)
 			if consecutiveOff > 200000 {
@@ -1209,6 +1263,15 @@ func (x *verifC30Explorer) dfs(cfg *verifC30Config, bs *verifC30Base, maxSchedul
 			continue
 		}
 		consecutiveOff = 0
+		// is the pinned prefix a path of the choice tree at all?
+		for s := 0; s < len(prefix); s++ {
+			if s >= len(run.Enabled) || prefix[s] >= run.Enabled[s] {
+				return count, true // empty subtree: that choice does not exist
+			}
+			if stack[s].n == -1 {
+				stack[s].n = run.Enabled[s]
+			}
+		}
 		// replay determinism of the already explored prefix
 		for s := 0; s < len(stack) && s < len(run.Enabled); s++ {
 			if run.Enabled[s] != stack[s].n {
@@ -1231,10 +1294,10 @@ func (x *verifC30Explorer) dfs(cfg *verifC30Config, bs *verifC30Base, maxSchedul
 		if count == 2 && x.r.WantSample() {
 			x.r.Sample(map[string]any{"config": cfg, "choices": run.Choices, "trace": run.finalize().Trace, "results": run.Results})
 		}
-		for len(stack) > 0 && stack[len(stack)-1].choice+1 >= stack[len(stack)-1].n {
+		for len(stack) > len(prefix) && stack[len(stack)-1].choice+1 >= stack[len(stack)-1].n {
 			stack = stack[:len(stack)-1]
 		}
-		if len(stack) == 0 {
+		if len(stack) <= len(prefix) {
 			return count, true
 		}
 		stack[len(stack)-1].choice++
@@ -1292,18 +1355,45 @@ func TestVerifC30(t *testing.T) {
 	r.Assume("sync/atomic operations are sequentially consistent in Go; hardware reorderings beyond that are not modelled")
 	r.Assume("tower heights are drawn from the unseedable global math/rand/v2 source; exhaustive enumeration is per target height vector, reached by rejection of off-target executions (which are still checked)")
 	x := &verifC30Explorer{r: r, siteHits: map[string]int64{}}
-	dfsCfgs := verifC30DFSConfigs(vcommon.Thorough())
+	type item struct {
+		cfg    *verifC30Config
+		prefix []int
+	}
+	var items []item
+	for _, c := range verifC30DFSConfigs(vcommon.Thorough()) {
+		if c.Split == 0 {
+			items = append(items, item{c, nil})
+			continue
+		}
+		// all choice prefixes of length Split (choices that do not exist in the
+		// tree give empty work items)
+		n := c.nActors()
+		total := 1
+		for i := 0; i < c.Split; i++ {
+			total *= n
+		}
+		for v := 0; v < total; v++ {
+			pre := make([]int, c.Split)
+			for i, w := 0, v; i < c.Split; i++ {
+				pre[i] = w % n
+				w /= n
+			}
+			items = append(items, item{c, pre})
+		}
+	}
 	nWalkCfg := vcommon.Scale(240, 4000)
 	walksPer := vcommon.Scale(150, 400)
 	maxSched := vcommon.Scale(40000, 3000000)
-	total := len(dfsCfgs) + nWalkCfg
+	total := len(items) + nWalkCfg
+	r.Count("dfs_work_items_total", 0)
 	complete, incomplete := 0, 0
 	r.Cases(total, func(i int, rng *rand.Rand) {
 		var cfg *verifC30Config
-		if i < len(dfsCfgs) {
-			cfg = dfsCfgs[i]
+		var prefix []int
+		if i < len(items) {
+			cfg, prefix = items[i].cfg, items[i].prefix
 		} else {
-			cfg = verifC30WalkConfig(i-len(dfsCfgs), rng, walksPer)
+			cfg = verifC30WalkConfig(i-len(items), rng, walksPer)
 		}
 		bs, tries := verifC30BuildBase(cfg)
 		if bs == nil {
@@ -1314,16 +1404,21 @@ func TestVerifC30(t *testing.T) {
 		r.Count("prelist_build_attempts", int64(tries))
 		r.SetAdd("families", cfg.Family)
 		if cfg.DFS {
-			n, ok := x.dfs(cfg, bs, maxSched)
-			r.Max("max_schedules_in_one_configuration", int64(n))
+			name := cfg.Name
+			if prefix != nil {
+				name = fmt.Sprintf("%s[prefix %v]", cfg.Name, prefix)
+			}
+			n, ok := x.dfs(cfg, bs, maxSched, prefix)
+			r.Max("max_schedules_in_one_work_item", int64(n))
+			r.Count("dfs_work_items_total", 1)
 			if ok {
 				complete++
-				r.Count("configs_enumerated_completely", 1)
-				r.SetAdd("configs_exhaustive", fmt.Sprintf("%s=%d", cfg.Name, n))
+				r.Count("dfs_work_items_enumerated_completely", 1)
+				r.SetAdd("configs_exhaustive", fmt.Sprintf("%s=%d", name, n))
 			} else {
 				incomplete++
-				r.Count("configs_enumeration_incomplete", 1)
-				r.Note("config %s: enumeration stopped after %d schedules (cap %d or violation)", cfg.Name, n, maxSched)
+				r.Count("dfs_work_items_incomplete", 1)
+				r.Note("config %s: enumeration stopped after %d schedules (cap %d or violation)", name, n, maxSched)
 			}
 		} else {
 			x.walks(cfg, bs, rng)
@@ -1350,10 +1445,10 @@ func TestVerifC30Stress(t *testing.T) {
 	verifC30InstallHook()
 	r := vcommon.NewReport("C30", "stress")
 	defer r.Finish(t)
-	r.Rule("case = one stress run: 8-32 free-running inserters over 10^4-10^5 distinct keys plus 5% duplicate attempts, three dealing patterns " +
+	r.Rule("case = one stress run: 8-32 free-running inserters over 10^4-10^5 distinct keys (quick tier: 3000-10^4) plus 5% duplicate attempts, three dealing patterns " +
 		"(shuffled, sorted round-robin = neighbours inserted at the same time, per-inserter ascending runs with Inserter), arena either ample or filling up near the end, " +
 		"2 free-running readers, seeded random yields at the four sites; distinct = (inserters, keys, pattern, arena mode); non-trivial = at least one CAS retry was observed")
-	n := vcommon.Scale(20, 400)
+	n := vcommon.Scale(8, 400)
 	type padded struct {
 		n atomic.Int64
 		_ [7]uint64
@@ -1369,7 +1464,7 @@ func TestVerifC30Stress(t *testing.T) {
 	siteIdx := map[string]int{"arenaskl.add.afterFindSplice": 0, "arenaskl.add.beforeCASNext": 1, "arenaskl.add.beforeCASPrev": 2, "arenaskl.add.casFailedRetry": 3}
 	r.Cases(n, func(ci int, rng *rand.Rand) {
 		nIns := 8 + rng.IntN(25)
-		nKeys := 10000
+		nKeys := []int{10000, 3000, 3000, 10000}[ci%4]
 		if vcommon.Thorough() {
 			nKeys = 10000 + rng.IntN(90001)
 		}
